@@ -165,6 +165,8 @@ fn sym_menu() -> Vec<(&'static str, Option<Vec<u8>>)> {
         // function names with argument lists containing multi-byte characters, templates and nested parentheses
         // (x86 argument recovery under unstable_all slices the name at comma positions)
         ("x86-argument-lists", Some(SYM_ARGS.as_bytes().to_vec())),
+        // a line longer than the parser's window, then a tail without final newline (the recovery path of the parser)
+        ("over-long-line-then-unterminated-tail", Some({ let mut v = SYM_CFI.as_bytes().to_vec(); v.extend_from_slice(b"PUBLIC 10 0 "); v.extend(std::iter::repeat(b'x').take(170 * 1024)); v.extend_from_slice(b"\nPUBLIC 20 0 tail"); v })),
         // two CFI ranges that send control to each other without moving the stack pointer
         ("ping-pong-cfi", Some(SYM_PINGPONG.as_bytes().to_vec())),
         ("non-utf8", Some([SYM_CFI.as_bytes(), b"PUBLIC 10 0 \xff\xfe\n"].concat())),
@@ -220,8 +222,12 @@ fn mutated_space(tier: Tier, seed: u64) -> Space {
     let nmenu = menu.len() as u64;
     let (t1, m1) = (tabs.clone(), menu.clone());
     let gen = move |idx: u64| -> (Vec<u8>, usize, u64, Value) {
-        let mi = (idx % nmenu) as usize;
+        let mut mi = (idx % nmenu) as usize;
         let j = (idx / nmenu) * k + shard;
+        // the 170 KiB symbol file is expensive to parse: serve it for every 16th mutation only
+        if m1[mi].0.starts_with("over-long") && j % 16 != 0 {
+            mi = 0;
+        }
         let (tabs, starts) = &*t1;
         let ti = starts.partition_point(|s| *s <= j) - 1;
         let t = &tabs[ti];
@@ -420,12 +426,15 @@ fn cfi_space() -> Space {
     let cpus = [CpuK::Amd64, CpuK::X86, CpuK::Arm, CpuK::Arm64, CpuK::Arm64Old, CpuK::Mips, CpuK::Ppc, CpuK::Ppc64, CpuK::Sparc];
     let platforms = [md::PlatformId::Linux as u32, md::PlatformId::VER_PLATFORM_WIN32_NT as u32, md::PlatformId::MacOs as u32, md::PlatformId::Ios as u32, md::PlatformId::Android as u32];
     let cfas = ["{sp} -8 +", "{sp}", "{sp} 1 +", "{sp} 8 +", "{sp} 4096 +", "0", "18446744073709551615", "{sp} ^"];
-    let ras = ["4096", ".cfa -8 + ^", "4198416", "0", ".cfa ^", "18446744073709551615"];
+    // PINGPONG: two records whose constant return addresses point into each other's range
+    let ras = ["4096", ".cfa -8 + ^", "4198416", "0", ".cfa ^", "18446744073709551615", "PINGPONG"];
     let stacks: [usize; 4] = [0, 8, 64, 4096];
+    // where the context's sp lies: inside the stack memory, or a page below it
+    let sp_wheres: u64 = 2;
     let places: [u64; 3] = [0x7000_0000, 0xffff_ff00, u64::MAX - 0xfff];
-    let n = product(&[cpus.len() as u64, platforms.len() as u64, cfas.len() as u64, ras.len() as u64, stacks.len() as u64, places.len() as u64]);
+    let n = product(&[cpus.len() as u64, platforms.len() as u64, cfas.len() as u64, ras.len() as u64, stacks.len() as u64, places.len() as u64, sp_wheres]);
     let gen = move |idx: u64| -> (Vec<u8>, Vec<u8>, Value) {
-        let d = unrank(idx, &[cpus.len() as u64, platforms.len() as u64, cfas.len() as u64, ras.len() as u64, stacks.len() as u64, places.len() as u64]);
+        let d = unrank(idx, &[cpus.len() as u64, platforms.len() as u64, cfas.len() as u64, ras.len() as u64, stacks.len() as u64, places.len() as u64, sp_wheres]);
         let cpu = cpus[d[0] as usize];
         let spname = match cpu {
             CpuK::Amd64 => "$rsp",
@@ -442,13 +451,17 @@ fn cfi_space() -> Space {
                 base = 0xffff_f000;
             }
         }
-        let sym = format!("MODULE Linux x86_64 000000000000000000000000000000000 app\nFUNC 1000 100 0 f\nSTACK CFI INIT 0 20000 .cfa: {cfa} .ra: {ra}\n");
+        let sym = if ra == "PINGPONG" {
+            format!("MODULE Linux x86_64 000000000000000000000000000000000 app\nFUNC 1000 100 0 f\nSTACK CFI INIT 0 1800 .cfa: {cfa} .ra: 4200704\nSTACK CFI INIT 1800 1e800 .cfa: {cfa} .ra: 4198416\n")
+        } else {
+            format!("MODULE Linux x86_64 000000000000000000000000000000000 app\nFUNC 1000 100 0 f\nSTACK CFI INIT 0 20000 .cfa: {cfa} .ra: {ra}\n")
+        };
         let mut stack = vec![];
         for k in 0..(size / 8) as u64 {
             stack.extend_from_slice(&(0x40_1010u64 + k).to_le_bytes());
         }
-        let w = Wd { cpu, platform: platforms[d[1] as usize], ip: 0x40_1010, sp: base.wrapping_add(if size > 8 { 8 } else { 0 }), stack_base: base, stack, modules: vec![(0x40_0000, 0x20000, "app")], limits: None, with_exception: d[5] == 1 };
-        (build_wd(&w), sym.into_bytes(), json!({"class": format!("cfi-menu:{cpu:?}"), "cpu": format!("{cpu:?}"), "platform": platforms[d[1] as usize], "cfa": cfa, "ra": ra, "stack_bytes": size, "stack_base": format!("{base:#x}")}))
+        let w = Wd { cpu, platform: platforms[d[1] as usize], ip: 0x40_1010, sp: if d[6] == 1 { base.wrapping_sub(0x1000) } else { base.wrapping_add(if size > 8 { 8 } else { 0 }) }, stack_base: base, stack, modules: vec![(0x40_0000, 0x20000, "app")], limits: None, with_exception: d[5] == 1 };
+        (build_wd(&w), sym.into_bytes(), json!({"class": format!("cfi-menu:{cpu:?}"), "cpu": format!("{cpu:?}"), "platform": platforms[d[1] as usize], "cfa": cfa, "ra": ra, "stack_bytes": size, "stack_base": format!("{base:#x}"), "sp": (if d[6] == 1 { "a page below the stack memory" } else { "inside the stack memory" })}))
     };
     let g2 = gen.clone();
     Space::new(
@@ -502,7 +515,7 @@ fn main() {
         let mut def = CheckDef::new(
             "C03",
             "fault_enumeration",
-            "every case = (dump bytes, symbol bytes served to every module, option set rotating over stable_basic / stable_all / unstable_all) through the real process_minidump_with_options and all four renderers in sandboxed workers (panic guard, 8 s wall confirmed by a solo re-run, 768 MiB heap cap), then frame budget (frames <= stack bytes + 2 per thread) and strict JSON validity. Spaces: one-deviation mutations (every 4-aligned offset x width {4,8} x boundary/directory-value menu) of the 54 synthetic seed dumps x 10 symbol menus (quick: shard VERIF_SEED mod 8 of the mutations, completely; thorough: all); all sequences of <= 3 /proc limits lines over 10 line shapes x LF/CRLF; amd64 crash contexts whose instruction bytes run over ALL 2-byte [thorough 3-byte] prefixes x rsp menu; x86 STACK WIN records with every size field in {0,1,4,2^31,2^32-1} x 3 record kinds x 4 esp values; CFI menus (CFA below/equal/above sp, memory-free rules) x 9 CPUs x 5 platforms x stack sizes x 3 placements incl. top of address space; memory-map regions ending at the extremes next to the crash address. distinct_nontrivial = distinct (thread count, per-thread frame count + trust sequence, crash reason, option set).",
+            "every case = (dump bytes, symbol bytes served to every module, option set rotating over stable_basic / stable_all / unstable_all) through the real process_minidump_with_options and all four renderers in sandboxed workers (panic guard, 8 s wall confirmed by a solo re-run, 768 MiB heap cap), then frame budget (frames <= stack bytes + 2 per thread) and strict JSON validity. Spaces: one-deviation mutations (every 4-aligned offset x width {4,8} x boundary/directory-value menu) of the 54 synthetic seed dumps x 11 symbol menus (quick: shard VERIF_SEED mod 8 of the mutations, completely; thorough: all); all sequences of <= 3 /proc limits lines over 10 line shapes x LF/CRLF; amd64 crash contexts whose instruction bytes run over ALL 2-byte [thorough 3-byte] prefixes x rsp menu; x86 STACK WIN records with every size field in {0,1,4,2^31,2^32-1} x 3 record kinds x 4 esp values; CFI menus (CFA below/equal/above sp, memory-free rules) x 9 CPUs x 5 platforms x stack sizes x 3 placements incl. top of address space; memory-map regions ending at the extremes next to the crash address. distinct_nontrivial = distinct (thread count, per-thread frame count + trust sequence, crash reason, option set).",
         );
         def.assumptions = vec![
             "small scope: mutated dumps are one deviation away from a seed; symbol bytes come from a 7-entry menu served to every module".into(),
